@@ -26,6 +26,15 @@ type params struct {
 	Enc   bool   `json:"enc"`
 	Sweep *sweep `json:"sweep,omitempty"`
 	Comp  *comp  `json:"comp,omitempty"`
+	// Refuse: a send the stream must refuse (too large for one frame) sits between ordinary
+	// messages; Before = messages sent ahead of it (0: it would have been the first protected frame)
+	Refuse *refuse `json:"refuse,omitempty"`
+}
+
+type refuse struct {
+	Size   int `json:"size"`
+	Before int `json:"msgs_before"`
+	API    int `json:"send_api"` // sendSingle | sendWrite | sendPartial
 }
 
 // comp is one cell of the exhaustive enumeration of compositions of a short message:
@@ -439,6 +448,10 @@ var sendNames = []string{"SendMessage", "WriteMessage", "SendPartialMessage", "M
 func run(s *kernel.Sim, c *scen.Case) {
 	var p params
 	c.P(&p)
+	if p.Refuse != nil {
+		runRefuse(s, p)
+		return
+	}
 	t := s.T
 	ctx := context.Background()
 	var plans [2][]*msgPlan
@@ -674,6 +687,125 @@ func firstDiff(a, b []byte) int {
 	return n
 }
 
+
+// runRefuse: a refused send must leave the stream usable - everything the sender accepts
+// afterwards still arrives, byte-exact.
+func runRefuse(s *kernel.Sim, p params) {
+	t := s.T
+	ctx := context.Background()
+	net := simnet.New(s, simnet.Config{Window: 1 << 16, ShortReads: t.Choose("short", 2) == 1})
+	a, b := net.Pipe("A", "B", "10.0.0.1:1000", "10.0.0.2:9618")
+	sa, sb := stream.NewStream(a), stream.NewStream(b)
+	if p.Enc {
+		key := t.Bytes("key", 32)
+		_ = sa.SetSymmetricKey(key)
+		_ = sb.SetSymmetricKey(key)
+	}
+	r := p.Refuse
+	var accepted [][]byte
+	var refusedErr error
+	big := fill(t, r.Size, 0x77)
+	done := false
+	var got [][]byte
+	var recvErr error
+	s.Go("send", func() {
+		defer func() { done = true }()
+		sendOK := func(tag byte) bool {
+			m := fill(t, 20+int(tag), tag)
+			if err := sa.SendMessage(ctx, m); err != nil {
+				recvErr = fmt.Errorf("ordinary send refused: %w", err)
+				return false
+			}
+			accepted = append(accepted, m)
+			return true
+		}
+		for i := 0; i < r.Before; i++ {
+			if !sendOK(byte(1 + i)) {
+				return
+			}
+		}
+		before := a.BytesOut()
+		var err error
+		switch r.API {
+		case sendSingle:
+			err = sa.SendMessage(ctx, big)
+		case sendPartial:
+			err = sa.SendPartialMessage(ctx, big)
+		default:
+			sa.StartMessage()
+			err = sa.WriteMessage(ctx, big)
+		}
+		if err == nil {
+			// accepted after all (e.g. the write API split it): then it has to arrive like any other
+			if r.API == sendSingle {
+				accepted = append(accepted, big)
+			} else {
+				s.Probe("oversize-send-accepted-by-multi-frame-api")
+				return
+			}
+		} else {
+			refusedErr = err
+			if a.BytesOut() != before {
+				s.Probe("refused-send-left-bytes-on-the-wire")
+				return // a torn frame: the stream is legitimately dead
+			}
+			if r.API != sendSingle {
+				return // an opened multi-write message cannot be continued after a refusal
+			}
+		}
+		for i := 0; i < 3; i++ {
+			if !sendOK(byte(40 + i)) {
+				return
+			}
+		}
+	})
+	s.Go("recv", func() {
+		for {
+			m, err := sb.ReceiveCompleteMessage(ctx)
+			if err != nil {
+				if !errors.Is(err, simnet.ErrSimEnded) && !(done && len(got) == len(accepted)) {
+					recvErr = err
+				}
+				return
+			}
+			got = append(got, m)
+			if done && len(got) >= len(accepted) {
+				return
+			}
+		}
+	})
+	s.Run()
+	mode := "plain"
+	if p.Enc {
+		mode = "enc"
+	}
+	for _, tk := range s.Tasks() {
+		if tk.Panic != nil {
+			s.Violate("panic", mode+"/refuse", fmt.Sprintf("task %s: %v\n%s", tk.Name, tk.Panic, tk.Stack))
+			return
+		}
+	}
+	sig := fmt.Sprintf("%s/%s/after-refused-send/%s", mode, sendNames[r.API], sizeClass(r.Size))
+	desc := fmt.Sprintf("%d ordinary messages, then a %d-byte send (refused: %v), then more ordinary messages", r.Before, r.Size, refusedErr)
+	if recvErr != nil {
+		s.Violate("receiver-rejected-accepted-message", sig, fmt.Sprintf("%s: the receiver failed on a message the sender had accepted: %v (received %d of %d)", desc, recvErr, len(got), len(accepted)))
+		return
+	}
+	if len(got) != len(accepted) {
+		s.Violate("message-lost", sig, fmt.Sprintf("%s: sender accepted %d messages, receiver got %d", desc, len(accepted), len(got)))
+		return
+	}
+	for i := range got {
+		if !bytes.Equal(got[i], accepted[i]) {
+			s.Violate("message-differs", sig, fmt.Sprintf("%s: message %d differs", desc, i))
+			return
+		}
+	}
+	if refusedErr != nil {
+		s.Probe("stream-usable-after-refused-send")
+	}
+}
+
 var scenarios = []*scen.Scenario{
 	{
 		Name:       "threshold-sweep",
@@ -694,6 +826,26 @@ var scenarios = []*scen.Scenario{
 						}
 						for sz := lo; sz <= hi; sz += step {
 							if !g.Emit(scen.Case{Seed: g.Seed*1000003 + uint64(sz), Params: scen.Params(params{Enc: enc, Sweep: &sweep{Size: sz, SendAPI: api, First: first}})}) {
+								return
+							}
+						}
+					}
+				}
+			}
+		},
+		Run: run,
+	},
+	{
+		Name:       "refused-send",
+		Enumerated: true,
+		Gen: func(g *scen.Gen) {
+			n := uint64(0)
+			for _, enc := range []bool{true, false} {
+				for _, api := range []int{sendSingle, sendPartial, sendWrite} {
+					for before := 0; before < 3; before++ {
+						for _, sz := range []int{MiB - 33, MiB - 31, MiB - 16, MiB - 15, MiB - 1, MiB, MiB + 1, 2*MiB + 3} {
+							n++
+							if !g.Emit(scen.Case{Seed: g.Seed*1000211 + n, Params: scen.Params(params{Enc: enc, Refuse: &refuse{Size: sz, Before: before, API: api}})}) {
 								return
 							}
 						}
